@@ -3,9 +3,13 @@ import LicenseExpr.Props.C17
 #print axioms LE.C17_kept_sub
 #print axioms LE.C17_leftmost_longest
 #print axioms LE.C17_isolated
+#print axioms LE.C17_pair
 #print axioms LE.C17_pair_partial
 #print axioms LE.C17_slice
 #print axioms LE.C17_lossless
 #print axioms LE.C17_cover
 #print axioms LE.tok_pairwise_cases
 #print axioms LE.C17_once
+#print axioms LE.iterGo_unmatched_piece
+#print axioms LE.C17_reappear
+#print axioms LE.C17_pair_words
